@@ -31,6 +31,24 @@ Fixpoint runner_loop {SS} (fs : full_scheduler SS) (ms : max_steps) (iters efuel
     end
   end.
 
+(* The same loop with `max_time`: the real loop reads the clock exactly once per iteration, before asking the
+   scheduler for a new execution.  `expired i` is the outcome of that reading when i executions have been performed
+   (an oracle: time itself is not modelled).  `i0` is the number of executions already performed. *)
+Fixpoint runner_loop_t {SS} (expired : nat -> bool) (i0 : nat) (fs : full_scheduler SS) (ms : max_steps) (iters efuel : nat) (main : code) (objs : store) (st : SS)
+  : list (world * Exec.outcome) * SS * bool :=
+  match iters with
+  | O => ([], st, false)
+  | S iters' =>
+    if expired i0 then ([], st, true) else
+    match fs_new_execution fs st with
+    | None => ([], st, true)
+    | Some st1 =>
+      let '(w, st2, out) := run_exec (fs_sched fs) ms efuel main objs st1 in
+      if is_failure out then ([(w, out)], st2, false)
+      else let '(rest, st3, okflag) := runner_loop_t expired (S i0) fs ms iters' efuel main objs st2 in ((w, out) :: rest, st3, okflag)
+    end
+  end.
+
 (* ---- DfsScheduler as a scheduler of the engine model ---- *)
 (* ds_data = Some f: allow_random_data = true with the FixedDataSource f (seeded with DFS_RANDOM_SEED);
    None: next_u64 panics *)
@@ -55,3 +73,11 @@ Definition dfs_sched : full_scheduler dfs_state :=
 
 Definition dfs_initial (max_iter : option nat) (allow_random_data : bool) : dfs_state :=
   mkDfsSt (dfs_new max_iter) false (if allow_random_data then Some (fd_initialize DFS_RANDOM_SEED) else None).
+
+(* iteration counts under a time limit whose clock readings are given as a list (missing = not expired), for a
+   scheduler with an iteration budget that always runs the first offered task: the count returned by Runner::run *)
+Definition budget_sched : full_scheduler nat :=
+  mkFull (mkSched (fun st offered _ _ => (hd_error offered, st)) (fun st => (Some 0%N, st)))
+         (fun st => match st with O => None | S n => Some n end).
+Definition run_count_t (expired : list bool) (budget efuel : nat) (main : code) (objs : store) : nat :=
+  length (fst (fst (runner_loop_t (fun i => nth i expired false) 0 budget_sched MSNone (S budget) efuel main objs budget))).
